@@ -37,7 +37,10 @@ def confirm(d: Path):
     res = {}
     try:
         env = {"PYTHONPATH": f"{wt}/src"}
-        demo = (d / "demo.py").read_text().replace(f"/tmp/seed_{d.name}", wt)
+        pid = json.loads((d / "meta.json").read_text())["property"]
+        demo = (d / "demo.py").read_text()
+        for pat in (f"/tmp/seedB_{pid}", f"/tmp/seedC_{pid}", f"/tmp/seed_{pid}", f"/tmp/seed_{d.name}"):
+            demo = demo.replace(pat, wt)
         Path(wt, "demo.py").write_text(demo)
         rc0, out0 = sh([PY, "demo.py"], cwd=wt, env=env, timeout=900)
         res["demo_without_patch_rc"] = rc0
